@@ -211,6 +211,27 @@ func (g *Gen) execInstr(st *State, in ssa.Instruction) {
 		g.regs[x] = RefV{r, x.Type()}
 	case *ssa.MapUpdate:
 		g.note("map", "map update not modelled")
+		// oracle clause on the update:  callee mapupdate:<name>(k, v)
+		if g.spec != nil {
+			name := "mapupdate:" + g.describeValue(x.Map)
+			for _, cs := range g.spec.Callees {
+				if cs.Name != name {
+					continue
+				}
+				g.calleeUse[cs]++
+				binds := map[string]Val{}
+				if len(cs.Params) > 0 {
+					binds[cs.Params[0]] = g.value(st, x.Key)
+				}
+				if len(cs.Params) > 1 {
+					binds[cs.Params[1]] = g.value(st, x.Value)
+				}
+				ctx := &specCtx{g: g, st: st, old: st, binds: binds, oldIsPre: true}
+				for _, c := range cs.Requires {
+					g.oblige(st, "requires", "callee "+cs.Name+" "+c.ID, "map update "+name+": "+c.Src, g.evalBool(ctx, c.E))
+				}
+			}
+		}
 	case *ssa.Lookup:
 		if _, isStr := x.X.Type().Underlying().(*types.Basic); isStr {
 			s := g.value(st, x.X).(StrV)
